@@ -40,6 +40,10 @@ THEOREMS = [
     "C17.generate_refuses_present_id",
     "C17.generate_refuses_taken_label",
     "C17.generate_refuses_unencodable",
+    "C17.generate_refuses_taken_file",
+    "C17.filename_default_injective",
+    "C17.stepCallF_files",
+    "C17.runCallsF_files",
     "C17.generate_error_kind",
     "C17.accepted_labels_pass_add_revision",
     "C17.stepCall_refused",
@@ -334,15 +338,15 @@ def gen_date(rng):
 # model ops
 
 
-def model_args(call, rid, env=None, req=None, file_taken=None):
+def model_args(call, rid, env=None, req=None, want_file=None):
     head = call.get("head")
     extra = {}
     if env is not None and req is not None:
         # what the template is handed: message, id, resolved down revisions, labels, written dependencies
         msg = call.get("message") if call.get("message") is not None else "empty message"
         extra["encodable"] = env.encodable([msg, rid] + list(req["down"]) + list(req["labels"]) + list(req["deps"]))
-    if file_taken:
-        extra["fileTaken"] = True
+    if want_file is not None:
+        extra["file"] = want_file     # Model.Gen.stepCallF decides from the files of the directory whether it is taken
     if env is not None:
         vp, locs = env.model_paths(call.get("version_path"))
         extra.update({"locations": locs, "tzOk": env.tz_ok(),
@@ -479,11 +483,13 @@ def check_call(ctx, env, sd, model_m_hist, seg_calls, call, rid, dt, fresh_befor
         except OSError:
             pre_files[os.path.normpath(loc)] = set()
     file_taken = None
+    want_file = None
     if not getattr(env, "real_date", False) or not any(t in env.file_template for t in ("epoch", "year", "month", "day", "hour", "minute", "second")):
         want_dir = expected_dir(env, fresh_before, call, req)
         if want_dir is not None:
             a_ = ctx.drv.ask1(path_op(env, rid, call.get("message"), dt))
             if "name" in a_:
+                want_file = os.path.join(want_dir, from_cps(a_["name"]))
                 file_taken = from_cps(a_["name"]) in pre_files.get(want_dir, set())
     if getattr(env, "real_date", False):
         res = G.run_call(env, sd, call, rid)
@@ -491,7 +497,8 @@ def check_call(ctx, env, sd, model_m_hist, seg_calls, call, rid, dt, fresh_befor
         with fixed_date(dt):
             res = G.run_call(env, sd, call, rid)
     ctx.evaluation()
-    out = {"res": res, "req": req, "inp": inp, "file_taken": file_taken}
+    out = {"res": res, "req": req, "inp": inp, "file_taken": file_taken, "want_file": want_file,
+           "files_before": sorted(os.path.join(d_, f_) for d_, fs_ in pre_files.items() for f_ in fs_)}
     if file_taken is not None:
         ctx.hist("file_name_taken", file_taken)
     if "err" not in res and res.get("script") is not None:
@@ -661,7 +668,7 @@ def run_one_sequence(ctx, rng, env, n_calls, f12, scripted=None):
             seg_hist0, seg_calls, seg_records = G.hist_of_map(fresh.revision_map), [], []
         out, fresh_after = check_call(ctx, env, sd, None, seg_calls, call, rid, dt, fresh, "f12" if f12 else "main")
         out["dt"] = out.get("real_dt") or dt
-        seg_calls.append(model_args(call, rid, env, out.get("req"), out.get("file_taken")))
+        seg_calls.append(model_args(call, rid, env, out.get("req"), out.get("want_file")))
         seg_records.append(out)
         accepted = fresh_after is not None
         if accepted:
@@ -700,7 +707,7 @@ def flush_segments(ctx, env, pending):
     ops = []
     index = []
     for hist0, calls, records in pending:
-        ops.append({"op": "gen.seq", "revs": hist0, "calls": calls})
+        ops.append({"op": "gen.seq", "revs": hist0, "calls": calls, "files": records[0].get("files_before", []) if records else []})
         index.append(("seq", records))
         for k, out in enumerate(records):
             res = out["res"]
